@@ -41,6 +41,7 @@ static const double PARSEC = 3.0856775814913673e16;
 static std::string g_exe;
 static std::string g_base;
 static bool g_verbose = false;
+static bool g_keep = false; // C09_KEEP=1: leave the run directories in place
 
 // ---------------------------------------------------------------------------
 // configurations
@@ -221,7 +222,7 @@ static std::string param_text(const Config &c) {
   t += "TaskBasedRadiationHydrodynamicsSimulation:\n  number of iterations: 1\n  number of photons: 100\n"
        "  random seed: 42\n  do radiation: false\n  number of buffers: 64\n  number of tasks: 4096\n"
        "  queue size per thread: 1024\n  shared queue size: 1024\n  source copy level: 0\n";
-  t += fmt("  total time: %.17g s\n  snapshot time: %.17g s\n", T, T / 40.);
+  t += fmt("  total time: %.17g s\n  snapshot time: %.17g s\n", T, T / 100.);
   if (c.comps & COMP_MASK)
     t += "  use mask: true\n";
   if (c.comps & COMP_TURB)
@@ -397,7 +398,7 @@ static LegOut run_leg(const Config &c, const std::string &dir, const std::string
   }
   if (o.rr.exit_code != 0)
     o.log_tail = tail_of(dir + "/log.txt", 500);
-  if (!g_verbose)
+  if (!g_keep)
     rm_rf(dir);
   return o;
 }
@@ -778,7 +779,8 @@ int main(int argc, char **argv) {
   g_base = tmp + "/c09_restart";
   rm_rf(g_base);
   mkdir_p(g_base);
-  g_verbose = !A.replay.empty() || getenv("C09_KEEP");
+  g_verbose = !A.replay.empty();
+  g_keep = getenv("C09_KEEP") != nullptr;
 
   // candidate boxes; the class (n/s == 1/(s/n) or not) is evaluated at run time
   std::vector< Geometry > fixed = {
@@ -919,7 +921,10 @@ int main(int argc, char **argv) {
                    ", dt %.17g, t %.17g\n",
                    j, rd.ref[j].dump.size(), rd.info[j].seed_offset, rd.info[j].seed, rd.info[j].actual,
                    rd.info[j].current);
-          printf("scratch directories kept under %s\n", dir.c_str());
+          if (g_keep)
+            printf("run directories kept under %s\n", dir.c_str());
+          else
+            printf("(set C09_KEEP=1 to keep the run directories)\n");
         } else {
           Tally tl;
           make_reference(ctx, tl, cc, dir, rd);
@@ -933,6 +938,10 @@ int main(int argc, char **argv) {
     R.nontrivial = ctx.tally.nontrivial;
     for (auto &v : R.violations)
       printf("VIOLATION %s :: %s\n", v.key.c_str(), v.detail.c_str());
+    if (!g_keep) {
+      rm_rf(g_base);
+      verif::remove_fast_tmpdir(tmp);
+    }
     return R.finish(A);
   }
 
@@ -990,8 +999,9 @@ int main(int argc, char **argv) {
                           "only mask HydroMaskFactory::restart accepts");
   R.assumptions.push_back("turbulence forcing is not combined with the anisotropic box (AlveliusTurbulenceForcing "
                           "requires a cubic box)");
-  if (!getenv("C09_KEEP"))
+  if (!g_keep) {
     rm_rf(g_base);
-  verif::remove_fast_tmpdir(tmp);
+    verif::remove_fast_tmpdir(tmp);
+  }
   return R.finish(A);
 }
